@@ -19,6 +19,9 @@ Z3_OLD = '/usr/bin/z3'
 CVC5_BIN = os.environ.get('PYVC_CVC5', '/usr/bin/cvc5')
 
 WORKDIR = None
+_ctr = [0]
+import threading as _threading
+_ctr_lock = _threading.Lock()
 
 
 def workdir():
@@ -95,7 +98,11 @@ def solve_text(txt, budget=10.0, want_model=False, tag='q', solvers=('z3', 'cvc5
     returns dict(verdict in unsat|sat|sat?|unknown, backend, seconds, outputs{backend: text})
     """
     h = hashlib.sha1(txt.encode()).hexdigest()[:12]
-    base = os.path.join(workdir(), '%s-%s' % (re.sub(r'[^A-Za-z0-9_.-]', '_', tag)[:80], h))
+    with _ctr_lock:
+        _ctr[0] += 1
+        uniq = _ctr[0]
+    # unique per call: identical queries of different obligations run concurrently
+    base = os.path.join(workdir(), '%s-%s-%d' % (re.sub(r'[^A-Za-z0-9_.-]', '_', tag)[:80], h, uniq))
     path = base + '.smt2'
     cpath = base + '.cvc5.smt2'
     with open(path, 'w') as f:
